@@ -154,6 +154,11 @@ def c13Op : List String → Option String
       pure (toString (submitOk b a o sig))
   | _ => none
 
+/-- equality of two observation digests (twin runs) -/
+def eqOp : List String → Option String
+  | ["spec.eq", a, b] => some (toString (a == b))
+  | _ => none
+
 def c06Op : List String → Option String
   | ["spec.c06", honest, outcome, unchanged, hasData] =>
       some (toString (Spec.rejectInertOk (honest == "t") outcome (unchanged == "t") (hasData == "t")))
